@@ -12,7 +12,7 @@ use std::hash::{Hash, Hasher};
 use std::path::Path;
 use std::str::FromStr;
 
-const SEG: [&str; 6] = ["..", ".", "a", "b", "", "a.b"];
+const SEG: [&str; 10] = ["..", ".", "a", "b", "", "a.b", ".a", "..a", "...", ".. "];
 
 fn h(p: &PkgPath) -> u64 {
     let mut s = DefaultHasher::new();
@@ -98,6 +98,9 @@ fn check_path(t: &mut Tally, input: &str) {
             t.nontrivial += 1;
             t.outcome(if input.starts_with("..") { "accept/long-form" } else { "accept/short-form" });
         }
+        // "ordinary names": whether a name holding a control character (NUL, LF, ESC, C1 ...) is
+        // ordinary is not decided by the statement; rejecting such a path is admissible
+        (Some(_), Err(_)) if input.chars().any(|c| c.is_control()) => t.outcome("reject/control-character-in-a-name (not constrained)"),
         (w, g) => t.violation(Violation::new(
             "path",
             case(),
@@ -157,6 +160,7 @@ fn check_depend(t: &mut Tally, pat: &str, path: &str, colons: &[usize]) {
                 other => t.violation(Violation::new("depend", case(), json!("halves parse directly"), json!(format!("{:?}", other.map(|(a, b)| (a.is_ok(), b.is_ok())))), "Depend accepted but a half does not parse on its own")),
             }
         }
+        (Some(_), Err(_)) if parts[1].chars().any(|c| c.is_control()) => t.outcome("reject/control-character-in-a-name (not constrained)"),
         (w, g) => t.violation(Violation::new(
             "depend",
             case(),
@@ -183,7 +187,7 @@ fn main() {
         run.finish_replay(replay(doc), replay(doc));
     }
     run.rule(
-        "paths: every sequence of <= N segments over {'..', '.', 'a', 'b', '' (empty), 'a.b'} joined \
+        "paths: every sequence of <= N segments over {'..', '.', 'a', 'b', '' (empty), 'a.b', '.a', '..a', '...', '.. '} joined \
          by '/', with and without a leading '/': accept set vs the component rule; for accepted \
          inputs the short / full accessors (as paths), equality and equal hashes of the value with \
          both canonical spellings, and re-parsing each accessor's text. Dependencies: 7 pattern \
@@ -194,9 +198,9 @@ fn main() {
          halves parsed directly. Non-trivial = accepted \
          paths, rejected paths with at least one '/', rejected dependencies.",
     );
-    run.assume("names are ordinary segments (no NUL); reference normaliser mc/core/src/model/pkgpath.rs; pattern validity from the composed pattern model");
+    run.assume("a name holding a control character may be rejected or accepted (if accepted, all value clauses apply); reference normaliser mc/core/src/model/pkgpath.rs; pattern validity from the composed pattern model");
 
-    let n = run.pick(7, 9);
+    let n = run.pick(6, 8);
     run.bound(format!("all {} segment sequences of <= {} segments x {{relative, leading '/'}}", seqs::count(SEG.len(), n), n));
     seqs::par_seqs(&run, "C19 paths", SEG.len(), n, 2, |_| false, |s, t| {
         let joined: Vec<&str> = s.iter().map(|i| SEG[*i]).collect();
